@@ -1,7 +1,8 @@
 (* C02_Model.v — input/observation records, the declarative acceptance rule of
    property C02 and the boolean oracle evaluated on what the implementation
-   did. The model itself is VerifyCore.verify_core composed with
-   C02_Levels.get_level. Definitions only. *)
+   did. The model itself is VerifyCore.verify_core (= processSignature)
+   composed with C02_Levels.get_level (= GetVerificationLevel).
+   Definitions only. *)
 From NV Require Import Base Regex Generated C02_Levels VerifyCore.
 Open Scope string_scope.
 Open Scope list_scope.
@@ -23,6 +24,7 @@ Definition model (i : input) : option obs :=
 (* ---------- the declarative rule ---------- *)
 
 Definition is_none {A} (o : option A) : bool := match o with None => true | _ => false end.
+Definition nonempty {A} (l : list A) : bool := match l with [] => false | _ => true end.
 
 Definition attr_malformed (a : attr) : bool :=
   match a with
@@ -31,8 +33,13 @@ Definition attr_malformed (a : attr) : bool :=
   | AStr s => blank s
   end.
 
-(* the plugin the signature demands is installed and usable; gives its
-   verification capabilities *)
+(* the signature demands a verification plugin (the header is present) *)
+Definition plugin_demanded (sc : scenario) : bool :=
+  match s_plugin_attr sc with AAbsent => false | _ => true end.
+
+(* the plugin the signature demands is well named, installed, answers
+   get-plugin-metadata, has a valid version not below the demanded minimum and
+   declares at least one verification capability; gives those capabilities *)
 Definition usable_caps (sc : scenario) : option (list cap) :=
   match s_plugin_attr sc with
   | AStr name =>
@@ -47,73 +54,103 @@ Definition usable_caps (sc : scenario) : option (list cap) :=
   | _ => None
   end.
 
-Definition plugin_demanded (sc : scenario) : bool :=
-  match s_plugin_attr sc with AAbsent => false | _ => true end.
+Definition caps_of (sc : scenario) : list cap :=
+  match usable_caps sc with Some c => c | None => [] end.
 
-Definition caps_to_verify (lvl : level) (caps : list cap) : list cap :=
-  filter (fun c => negb (action_eqb (l_rev lvl) Skip && cap_eqb c CapRev)) caps.
+(* the capabilities the plugin is asked to verify under this level *)
+Definition asked (lvl : level) (sc : scenario) : list cap := caps_to_verify lvl (caps_of sc).
 
 Definition enforced (a : action) (failed : bool) : bool :=
   match a with Enforce => failed | _ => false end.
 
-(* which validation results are failed, given who performs them *)
-Definition identity_failed (sc : scenario) (caps : list cap) : bool :=
-  if has_cap CapTI caps
+(* which validation results are failed, given who performs them: a capability
+   the plugin declares replaces the native check *)
+Definition identity_failed (sc : scenario) : bool :=
+  if has_cap CapTI (caps_of sc)
   then match s_presp sc with PResp _ (Some false) _ => true | _ => false end
   else negb (s_identity_ok sc).
 
-Definition revocation_failed (sc : scenario) (caps : list cap) : bool :=
-  if has_cap CapRev caps
+Definition revocation_failed (sc : scenario) : bool :=
+  if has_cap CapRev (caps_of sc)
   then match s_presp sc with PResp _ _ (Some false) => true | _ => false end
   else negb (s_rev_ok sc).
 
-Definition plugin_exec_problem (lvl : level) (sc : scenario) (caps : list cap) : bool :=
-  match caps_to_verify lvl caps with
+Definition authenticity_failed (sc : scenario) : bool :=
+  negb (s_auth sc =? 0)%N || identity_failed sc.
+
+(* some validation whose action is enforce failed *)
+Definition enforced_failure (lvl : level) (sc : scenario) : bool :=
+  enforced (l_auth lvl) (authenticity_failed sc)
+  || enforced (l_exp lvl) (s_expired sc)
+  || enforced (l_ts lvl) (negb (s_ts_ok sc))
+  || enforced (l_rev lvl) (revocation_failed sc).     (* never when the action is skip *)
+
+(* the demanded plugin is missing, too old, lacks verification capabilities
+   (or the demand itself is malformed) *)
+Definition plugin_unusable (sc : scenario) : bool :=
+  plugin_demanded sc && is_none (usable_caps sc).
+
+Definition crit_processed (sc : scenario) (processed : list string) : bool :=
+  forallb (fun k => mem_str k processed) (other_crit sc).
+
+(* the plugin was executed and failed, omitted a verdict it was asked for, or
+   left a critical extended attribute unprocessed *)
+Definition plugin_exec_problem (lvl : level) (sc : scenario) : bool :=
+  match asked lvl sc with
   | [] => false
   | tv =>
       match s_presp sc with
       | PErr => true
       | PResp processed ti rev =>
-          negb (forallb (fun k => mem_str k processed) (s_other_crit sc))
+          negb (crit_processed sc processed)
           || (has_cap CapTI tv && is_none ti) || (has_cap CapRev tv && is_none rev)
       end
   end.
 
-(* critical attributes that nothing processes although no plugin runs *)
-Definition unprocessed_without_plugin (sc : scenario) : bool :=
-  negb (plugin_demanded sc)
-  && (match s_other_crit sc with [] => false | _ => true end
-      || match s_minver_attr sc with AAbsent | ANotCritical => false | _ => true end).
+(* a critical extended attribute is present and no plugin is executed: nothing
+   processes it. (A critical min-version header on a signature that demands no
+   plugin is such an attribute; integer-labelled ones are [s_nonstring_crit].) *)
+Definition has_critical (sc : scenario) : bool :=
+  nonempty (other_crit sc)
+  || (negb (plugin_demanded sc)
+      && match s_minver_attr sc with AAbsent | ANotCritical => false | _ => true end).
 
-(* footprint of the known finding F12b: the demanded plugin is usable but not
-   run because its only capability is revocation and the level skips it, and
-   the signature carries critical extended attributes *)
+Definition nothing_processes (lvl : level) (sc : scenario) : bool :=
+  has_critical sc && negb (nonempty (asked lvl sc)).
+
+(* footprint of the known finding F12b: the demanded plugin is usable but is
+   not run because its only capability is revocation and the level skips it,
+   and the signature carries critical extended attributes *)
 Definition f12b (lvl : level) (sc : scenario) : bool :=
-  match usable_caps sc with
-  | Some caps =>
-      match caps_to_verify lvl caps with
-      | [] => match s_other_crit sc with [] => false | _ => true end
-      | _ => false
-      end
-  | None => false
+  plugin_demanded sc && nothing_processes lvl sc.
+
+(* what property C02 demands: verification fails exactly when ... *)
+Definition should_fail_full (lvl : level) (sc : scenario) : bool :=
+  negb (s_integrity_ok sc)
+  || s_nonstring_crit sc
+  || plugin_unusable sc
+  || enforced_failure lvl sc
+  || plugin_exec_problem lvl sc
+  || nothing_processes lvl sc.
+
+(* the implementation is stricter on one point the property is silent about:
+   an executed plugin must also list the NON-critical attributes it was handed
+   as processed *)
+Definition noncrit_unprocessed (lvl : level) (sc : scenario) : bool :=
+  match asked lvl sc with
+  | [] => false
+  | _ => match s_presp sc with PErr => false | PResp processed _ _ => negb (all_processed sc processed) end
   end.
 
 (* what the implementation decides (proved equal to the model's rejection) *)
 Definition should_fail_impl (lvl : level) (sc : scenario) : bool :=
   negb (s_integrity_ok sc)
   || s_nonstring_crit sc
-  || (plugin_demanded sc && is_none (usable_caps sc))
-  || unprocessed_without_plugin sc
-  || (let caps := match usable_caps sc with Some c => c | None => [] end in
-      enforced (l_auth lvl) (negb (s_auth sc =? 0)%N || identity_failed sc caps)
-      || enforced (l_exp lvl) (s_expired sc)
-      || enforced (l_ts lvl) (negb (s_ts_ok sc))
-      || (negb (action_eqb (l_rev lvl) Skip) && enforced (l_rev lvl) (revocation_failed sc caps))
-      || plugin_exec_problem lvl sc caps).
-
-(* what property C02 demands *)
-Definition should_fail_full (lvl : level) (sc : scenario) : bool :=
-  should_fail_impl lvl sc || f12b lvl sc.
+  || plugin_unusable sc
+  || enforced_failure lvl sc
+  || plugin_exec_problem lvl sc
+  || (negb (plugin_demanded sc) && nothing_processes lvl sc)
+  || noncrit_unprocessed lvl sc.
 
 (* well-formed scenarios: capabilities without duplicates of the two
    verification capabilities (duplicates would make the plugin be asked, and
@@ -127,15 +164,15 @@ Definition wf_sc (sc : scenario) : bool :=
   | _ => true
   end.
 
-(* the results an accepting run reports, in order *)
+(* the results an accepting run reports, in order: every performed validation
+   with the action of the level and whether it failed *)
 Definition expected_results (lvl : level) (sc : scenario) : list result :=
-  let caps := match usable_caps sc with Some c => c | None => [] end in
   [mk_res TIntegrity Enforce false;
-   mk_res TAuth (l_auth lvl) (negb (s_auth sc =? 0)%N || identity_failed sc caps);
+   mk_res TAuth (l_auth lvl) (authenticity_failed sc);
    mk_res TExpiry (l_exp lvl) (s_expired sc);
    mk_res TTimestamp (l_ts lvl) (negb (s_ts_ok sc))]
   ++ (if action_eqb (l_rev lvl) Skip then []
-      else [mk_res TRev (l_rev lvl) (revocation_failed sc caps)]).
+      else [mk_res TRev (l_rev lvl) (revocation_failed sc)]).
 
 Definition act_of (lvl : level) (t : vtype) : action :=
   match t with
@@ -143,24 +180,53 @@ Definition act_of (lvl : level) (t : vtype) : action :=
   | TTimestamp => l_ts lvl | TRev => l_rev lvl
   end.
 
+Definition type_order : list vtype := [TIntegrity; TAuth; TExpiry; TTimestamp; TRev].
+
+Fixpoint is_prefix (a b : list vtype) : bool :=
+  match a, b with
+  | [], _ => true
+  | x :: a', y :: b' => vtype_eqb x y && is_prefix a' b'
+  | _ :: _, [] => false
+  end.
+
 (* ---------- the oracle on observations ---------- *)
 Definition accepted (o : obs) : bool := err_eqb (o_err o) ENone.
 
-Definition spec_ok_obs (lvl : level) (sc : scenario) (o : obs) : bool :=
-  (* exact acceptance rule, full property *)
-  Bool.eqb (negb (accepted o)) (should_fail_full lvl sc)
-  (* every reported result carries the action of the level *)
-  && forallb (fun r => action_eqb (r_action r) (act_of lvl (r_type r))) (o_results o)
+(* everything except the exact acceptance rule *)
+Definition spec_shape (lvl : level) (sc : scenario) (o : obs) : bool :=
+  (* every reported result carries the action of the level; fixed order, each type at most once *)
+  forallb (fun r => action_eqb (r_action r) (act_of lvl (r_type r))) (o_results o)
+  && is_prefix (map r_type (o_results o)) type_order
   (* an accepting run reports every performed validation, failed ones included *)
   && (negb (accepted o) || list_eqb result_eqb (o_results o) (expected_results lvl sc))
+  (* a rejection that carries the error of a result: that result is reported, enforced and failed *)
+  && match o_err o with
+     | EResult t => existsb (fun r => vtype_eqb (r_type r) t && action_eqb (r_action r) Enforce && r_failed r) (o_results o)
+     | _ => true
+     end
   (* skipped revocation is performed neither natively nor by the plugin *)
   && (negb (action_eqb (l_rev lvl) Skip)
       || (negb (o_rev_called o)
           && match o_exec o with Some (cs, _) => negb (has_cap CapRev cs) | None => true end
           && negb (existsb (fun r => vtype_eqb (r_type r) TRev) (o_results o))))
   (* a capability the plugin declares replaces the native check *)
-  && (negb (o_rev_called o)
-      || match usable_caps sc with Some caps => negb (has_cap CapRev caps) | None => true end).
+  && (negb (o_rev_called o) || negb (has_cap CapRev (caps_of sc)))
+  (* the plugin is asked for exactly its declared capabilities (minus a skipped
+     revocation) and handed the attributes it must process *)
+  && match o_exec o with
+     | Some (cs, attrs) =>
+         nonempty cs && list_eqb cap_eqb cs (asked lvl sc) && list_eqb String.eqb attrs (other_keys sc)
+     | None => true
+     end.
+
+(* the property on what the implementation did: exact acceptance rule (where
+   only the implementation-specific strictness about non-critical attributes
+   decides, either outcome is compatible with the property) + shape *)
+Definition spec_ok_obs (lvl : level) (sc : scenario) (o : obs) : bool :=
+  (if should_fail_full lvl sc then negb (accepted o)
+   else if noncrit_unprocessed lvl sc then true
+   else accepted o)
+  && spec_shape lvl sc o.
 
 Definition spec_ok (i : input) (o : option obs) : bool :=
   match get_level (i_level i) (i_override i), o with
@@ -172,18 +238,19 @@ Definition spec_ok (i : input) (o : option obs) : bool :=
 
 Definition wf (i : input) : bool := wf_sc (i_sc i).
 
-Record case := mk_case { c_id : N; c_in : input; c_obs : option obs }.
-
-Definition fp_case (c : case) : N :=
-  match get_level (i_level (c_in c)) (i_override (c_in c)) with
+(* footprint 1 = the known finding F12b *)
+Definition fp (i : input) : N :=
+  match get_level (i_level i) (i_override i) with
   | inr (_, enf) =>
-      if f12b (level_of enf) (i_sc (c_in c)) && negb (should_fail_impl (level_of enf) (i_sc (c_in c)))
+      if f12b (level_of enf) (i_sc i) && negb (should_fail_impl (level_of enf) (i_sc i))
       then 1%N else 0%N
   | inl _ => 0%N
   end.
+
+Record case := mk_case { c_id : N; c_in : input; c_obs : option obs }.
 
 Definition run (cs : list case) : list (N * N * N) :=
   run_cases c_id
     (fun c => opt_eqb obs_eqb (model (c_in c)) (c_obs c))
     (fun c => negb (wf (c_in c)) || spec_ok (c_in c) (c_obs c))
-    fp_case cs.
+    (fun c => fp (c_in c)) cs.
